@@ -41,5 +41,7 @@ func (e errorHandler) ServeHTTP(w http.ResponseWriter, r *http.Request) {
 		return
 	}
 
-	e.LogWriter.Error(fmt.Sprintf("request error from (%s) %s: %+v", r.RemoteAddr, r.URL.String(), err))
+	// Only the path is logged: the query string of the confirm, recover and 2fa
+	// e-mail links carries the mailed token.
+	e.LogWriter.Error(fmt.Sprintf("request error from (%s) %s: %+v", r.RemoteAddr, r.URL.EscapedPath(), err))
 }
